@@ -7,7 +7,7 @@ VARIABLES l, viol
 ToSet(s) == {s[i] : i \in DOMAIN s}
 Init == l = 1 /\ viol = <<>>
 Next == /\ l <= Len(Tr) /\ l' = l + 1
-        /\ viol' = CheckWire(Tr[l].c[11] = "ids_on", Tr[l].o.reached, ToSet(Tr[l].o.via.req.hdrs), ToSet(Tr[l].o.via.resp.hdrs))
+        /\ viol' = CheckWire(Tr[l].c[11] = "ids_on", Tr[l].o.reached, ToSet(Tr[l].o.via.req.hdrs), ToSet(Tr[l].o.via.resp.hdrs), Tr[l].o.via.resp.first)
 Report == viol = <<>> \/ PrintT("VIOL " \o ToJson([line |-> l - 1, v |-> viol]))
 Consumed == TLCGet("stats").diameter - 1 = Len(Tr)
 =============================================================================
